@@ -17,8 +17,9 @@ import os
 import random
 import sys
 import time
-from concurrent.futures import ThreadPoolExecutor
+from concurrent.futures import ProcessPoolExecutor
 
+sys.path.insert(0, os.path.dirname(os.path.dirname(os.path.abspath(__file__))))
 import vlib
 import jscore
 
@@ -72,13 +73,21 @@ def observation(res, mode, early):
     return (steps[0]["out"], steps[0]["c"])
 
 
-def run_hjs(binary, scen, threads=4):
+def _run_chunk(args):
+    binary, chunk = args
+    return vlib.run_lines(binary, chunk) if chunk else {}
+
+
+def run_hjs(binary, scen, procs=4):
+    """runs the scenarios in `procs` hjs processes (vlib.run_lines names its files by pid: one process per chunk)"""
     if not scen:
         return {}
-    chunks = [scen[i::threads] for i in range(threads)]
+    if len(scen) < 200:
+        return vlib.run_lines(binary, scen)
+    chunks = [scen[i::procs] for i in range(procs)]
     out = {}
-    with ThreadPoolExecutor(max_workers=threads) as ex:
-        for r in ex.map(lambda ch: vlib.run_lines(binary, ch) if ch else {}, chunks):
+    with ProcessPoolExecutor(max_workers=procs) as ex:
+        for r in ex.map(_run_chunk, [(binary, ch) for ch in chunks]):
             out.update(r)
     return out
 
@@ -241,13 +250,25 @@ def run(tier, replay=None):
     vlib.log("[C01] %d programs (%d grid, %d corpus), %d evaluations, %d mismatching programs, %.0fs"
              % (len(items), len(grid), len(corpus), total_eval, len(failures), time.time() - t0))
 
+    # vacuity control on the inputs: which node kinds (= evaluation rules of JsCore.tla) the evaluated programs contain
+    kinds = {}
+    for name, ast, modes in items:
+        for n in jscore.walk(ast):
+            kinds[n["t"]] = kinds.get(n["t"], 0) + 1
+    all_kinds = set(jscore.SCHEMA) - {"program"}
+    missing = sorted(all_kinds - set(kinds))
+    ck.cov["node_kinds_covered"] = len(set(kinds) & all_kinds)
+    ck.cov["node_kinds_missing"] = missing
+    if tier == "thorough" and missing:
+        raise vlib.ToolError("vacuity guard: node kinds never exercised: %s" % missing)
+
     fresh_shrinks = 0
     max_shrinks = 6 if tier == "quick" else 25
     for name, ast, mm in failures:
         rec = fail_record(mm)
         key = prog_key(ast)
         kn = known.get(key)
-        if kn is not None and kn["modes"] == rec:
+        if kn is not None and all(kn["modes"].get(m) == r for m, r in rec.items()):
             ck.failure(kn["signature"], {"program": name, "src": jscore.render(ast), "modes": rec, "cached_shrink": True})
             continue
         # reproducibility: the same scenarios once more on fresh contexts
@@ -289,7 +310,7 @@ def run(tier, replay=None):
 
 def _build_corpus(profile, seed, n):
     bindir = vlib.build_harness(["hjs"])
-    runner = Runner(None, os.path.join(bindir, "hjs"), 4)
+    runner = Runner(None, os.path.join(bindir, "hjs"), 3)
     progs = jscore.gen_programs(seed, n, profile)
     items = [("gen/%d" % i, p, modes_for(p, True)) for i, p in enumerate(progs)]
     mism, st = runner.compare(items, 256)
@@ -316,20 +337,27 @@ def _build_corpus(profile, seed, n):
 
 def _vet(tier):
     bindir = vlib.build_harness(["hjs"])
-    runner = Runner(None, os.path.join(bindir, "hjs"), 4)
+    runner = Runner(None, os.path.join(bindir, "hjs"), 3)
     items = [(n, a, modes_for(a, True)) for n, a in jscore.grids(tier)] + [(n, a, modes_for(a, True)) for n, a in load_corpus()]
-    out = {}
+    fails = []
     for b0 in range(0, len(items), 1500):
         part = items[b0:b0 + 1500]
         mism, st = runner.compare(part, 256)
         for i, mm in sorted(mism.items()):
-            name, ast, _ = part[i]
-            mode = sorted(mm)[0]
-            small = canonical(jscore.shrink(ast, runner.still_fails(mode, 256), max_rounds=30, limit=250))
-            allmodes = set(mm) >= set(modes_for(ast, False))
-            sig = {"src": jscore.render(small), "modes": "all" if allmodes else sorted(mm)}
-            out[prog_key(ast)] = {"program": name, "modes": fail_record(mm), "signature": sig}
-            vlib.log("FAIL %s -> %s" % (name, json.dumps(sig)))
+            fails.append((part[i][0], part[i][1], mm))
+        vlib.log("batch %d: %d failing so far" % (b0, len(fails)))
+    modes = [sorted(mm)[0] for _, _, mm in fails]
+
+    def pred(cands):
+        mism, _ = runner.compare([("cand", c, [modes[i]]) for i, c in cands], 256)
+        return [j in mism for j in range(len(cands))]
+    small = jscore.shrink_many([a for _, a, _ in fails], pred, max_rounds=30, limit=40, log=vlib.log)
+    out = {}
+    for (name, ast, mm), sm in zip(fails, small):
+        allmodes = set(mm) >= set(modes_for(ast, False))
+        sig = {"src": jscore.render(canonical(sm)), "modes": "all" if allmodes else sorted(mm)}
+        out[prog_key(ast)] = {"program": name, "modes": fail_record(mm), "signature": sig}
+    os.makedirs(CORPUS_DIR, exist_ok=True)
     with open(EXPECTED_FAILURES, "w") as f:
         json.dump(out, f, indent=1, sort_keys=True)
     sigs = sorted({json.dumps(v["signature"], sort_keys=True) for v in out.values()})
